@@ -167,6 +167,48 @@ def run(chk):
                     if e2 > 1e-12 * max(1.0, np.max(np.abs(bx))):
                         chk.fail(f"bxcv{comp}", f"bxcv{comp} is not Bxy/2 * curl_bOverB_{comp}", {"grid": name, "region": r["name"], "loc": loc})
         worst[name] = {k: float(f"{v:.3g}") for k, v in w.items()}
+    # ---- the x-y-derivative formulation at the y-faces where two regions join (first y-face row of a region with a lower neighbour): its stencils reach into
+    # the neighbouring region there (hy at the corners, DDX(...).ylow); compared with the independent curl(b/B).grad(z) at 30 % of the region's largest value
+    # (the property: 'to the discretisation error of the grid'; at the corpus resolution that error is 14 % on these rows, X-point columns left out; a
+    #  stencil that reads the wrong end of the neighbouring region gives 60 %)
+    for name, g in grids.items():
+        if g.cfg["kind"] != "tokamak" or g.d["mesh"]["user_options"].get("curvature_type") != "curl(b/B) with x-y derivatives":
+            continue
+        if g.d["mesh"]["user_options"].get("psi_interpolation_method", "spline") != "spline" or not g.d["mesh"]["user_options"].get("orthogonal", True):
+            continue
+        from props import c03
+        F = Field(g.d["inputs"], c03.effective_inputs(g))
+        wj = 0.0
+        for rid, r in g.d["regions"].items():
+            if r["connections"]["lower"] is None:
+                continue
+            A = r["arrays"]
+            R, Z = A["Rxy"]["ylow"][:, 0], A["Zxy"]["ylow"][:, 0]
+            cR, cZ, cT = F.curl(R, Z)
+            bR, bZ, bt = F.B(R, Z)
+            hy, Bp = A["hy"]["ylow"][:, 0], A["Bpxy"]["ylow"][:, 0]
+            dRy, dZy = A["Rxy"]["centre"][:, 0] - R, A["Zxy"]["centre"][:, 0] - Z
+            sgn = np.sign(bR * dRy + bZ * dZy)
+            modbp = np.hypot(bR, bZ)
+            cy = cR * sgn * bR / modbp / hy + cZ * sgn * bZ / modbp / hy
+            cz = cT / R - A["Btxy"]["ylow"][:, 0] * hy / (Bp * R) * cy
+            got = A["curl_bOverB_z"]["ylow"][:, 0]
+            ri = r["radialIndex"]
+            ok = np.ones_like(R, dtype=bool)
+            if r["xPointsAtStart"][ri] is not None:
+                ok[0] = False
+            if r["xPointsAtStart"][ri + 1] is not None:
+                ok[-1] = False
+            sc = float(np.max(np.abs(A["curl_bOverB_z"]["centre"])))
+            if ok.any() and sc > 0:
+                e = float(np.max(np.abs(got - cz)[ok]) / sc)
+                wj = max(wj, e)
+                n += int(ok.sum())
+                if e > 0.3:
+                    k = int(np.argmax(np.where(ok, np.abs(got - cz), 0)))
+                    chk.fail("curl_bOverB_z:xy-form:y-face-at-region-join", "the x-y-derivative formulation of curl_bOverB_z at the first y-face row of a region (where its stencils reach into the "
+                             "region below) is not curl(b/B).grad(z)", {"grid": name, "region": r["name"], "x_index": k, "got": float(got[k]), "independent": float(cz[k]), "relative_to_region_max": e})
+        chk.notes.setdefault("xy_form_at_region_joins", {})[name] = float(f"{wj:.3g}")
     # ---- the two curvature_type formulations on orthogonal grids
     for a, b in (("lsn", "lsn_xy"), ("lsn_neg", "lsn_neg_xy")):
         if a in grids and b in grids:
